@@ -164,8 +164,26 @@ def _f_env_fft():
     Out.ar(0, [IFFT.ar(chain) * e, IFFT.ar(chain2)])
 
 
+def _f_pre(x, m=2):
+    Out.ar(0, Saw.ar(x) * m)
+
+
+def _build_prepend_zero(name, pre):
+    """An explicit falsy prepended value (0, 0.0, [0]) is a prepended value: no control is made for x."""
+    def build():
+        sd = SynthDef(name, _f_pre, None, pre)
+        names = [c.name for c in sd._all_control_names]
+        if names != ['m'] or sd._children[1].inputs[0] != 0:
+            raise SilentDrop('prepend=%r was ignored: controls %s, Saw input %r' % (pre, names, sd._children[1].inputs[0]))
+        return sd
+    return build
+
+
 def good():
     return [
+        ('prepend_zero_list', _build_prepend_zero('x_pre0l', [0])),
+        ('prepend_zero_scalar', _build_prepend_zero('x_pre0s', 0)),
+        ('prepend_zero_float', _build_prepend_zero('x_pre0f', 0.0)),
         ('wrap', lambda: SynthDef('x_wrap', _f_wrap)),
         ('wrap_prepend', lambda: SynthDef('x_wrap_prepend', _f_wrap_prepend)),
         ('rates_shared', lambda: SynthDef('x_rates', _f_three, RATES)),
